@@ -33,11 +33,7 @@ def _is_head_like(f: FuncInfo, e: ast.AST) -> bool:
     if L.subscript0_of(e) is not None:
         return True
     if isinstance(e, ast.Name):
-        for n in ast.walk(f.node):
-            if isinstance(n, (ast.Assign, ast.AnnAssign)) and n.value is not None and L.subscript0_of(n.value) is not None:
-                tgts = n.targets if isinstance(n, ast.Assign) else [n.target]
-                if any(isinstance(t, ast.Name) and t.id == e.id for t in tgts):
-                    return True
+        return any(name == e.id and L.subscript0_of(v) is not None for name, v, _st in C.simple_bindings(f.node))
     return False
 
 
